@@ -180,6 +180,7 @@ impl TCheck for C06T {
             record_events: false,
             hard_fault: false,
             one_cpu: false,
+            post: None,
         }
     }
     fn rule(&self) -> String {
